@@ -1,6 +1,7 @@
 package main
 
 import (
+	"time"
 	"context"
 	"fmt"
 	"net/http"
@@ -241,6 +242,55 @@ func suiteC14(r *Run) {
 				if len(r.Samples) < 5 && c == 5 {
 					r.Sample(map[string]interface{}{"case": caseDesc, "http_status": httpStatus, "client": canonErr(clientErr)})
 				}
+			}
+		}
+	}
+
+	// --- e2e: the 499 rule looks at the REQUEST's context only: a deadline that came from the
+	// GRPC-Timeout header and expired on the server leaves the request context live, so Canceled /
+	// DeadlineExceeded keep their documented 502 / 504, and a custom renderer is handed a live context
+	for _, c := range []codes.Code{codes.Canceled, codes.DeadlineExceeded, codes.NotFound} {
+		for _, rdName := range []string{"default", "recording"} {
+			c := c
+			svr := &scriptServer{}
+			svr.unary = func(ctx context.Context, req *Msg) (*Msg, error) {
+				select {
+				case <-ctx.Done():
+				case <-time.After(5 * time.Second):
+				}
+				return nil, status.Error(c, "late")
+			}
+			var rendererCtxErr error
+			rendererRan := false
+			var opts []httpgrpc.ServerOption
+			if rdName == "recording" {
+				opts = append(opts, httpgrpc.ErrorRenderer(func(ctx context.Context, st *status.Status, w http.ResponseWriter) {
+					rendererRan = true
+					rendererCtxErr = ctx.Err()
+					httpgrpc.DefaultErrorRenderer(ctx, st, w)
+				}))
+			}
+			hm := newHTTPMem(svr, opts...)
+			req := httptest.NewRequest("POST", mUnary, strings.NewReader(""))
+			req.Header.Set("Content-Type", httpgrpc.UnaryRpcContentType_V1)
+			req.Header.Set("GRPC-Timeout", "2m")
+			rec := httptest.NewRecorder()
+			hm.hs.ServeHTTP(rec, req)
+			httpStatus := rec.Result().StatusCode
+			caseDesc := map[string]interface{}{"op": "e2e-server-deadline", "renderer": rdName, "code": uint32(c), "grpc_timeout": "2m", "request_ctx_cancelled": false}
+			r.Eval(fmt.Sprint("e2e-server-deadline ", rdName, c), true)
+			r.Count("e2e:server-deadline")
+			r.TracesOnImpl++
+			r.Op(sprintf("C14 render %d 0", uint32(c)), sprintf("%d", httpStatus))
+			if doc != nil {
+				if exp, ok := doc[c.String()]; ok && httpStatus != exp {
+					r.Violate("http-unary/default-renderer/499-on-live-request", "the HTTP response carries the HTTP status listed in the error renderer's documented table (499 only when the request itself was cancelled)",
+						sprintf("code %s after a server-side GRPC-Timeout expiry with a live request context: HTTP %d, documented %d", c, httpStatus, exp), caseDesc, sprintf("%d", httpStatus))
+				}
+			}
+			if rdName == "recording" && (!rendererRan || rendererCtxErr != nil) {
+				r.Violate("http-unary/renderer/ctx-not-request-ctx", "the renderer is given the request's context (the 499 rule is about the request itself being cancelled)",
+					sprintf("custom renderer ran=%v with ctx.Err()=%v while the request context was live", rendererRan, rendererCtxErr), caseDesc, sprintf("%d", httpStatus))
 			}
 		}
 	}
